@@ -137,9 +137,25 @@ func c12Check(m *MClaims, c psatoken.IClaims) string {
 }
 
 func TestC12_JSON(t *testing.T) {
-	st := NewStats("C12", "TestC12_JSON", "rapid: valid claims-sets of both profiles (setters / literals / decoded from CBOR; P1 with and without explicit profile; non-ASCII, control, quote, <>& text; negative client ids): JSON round trip through the dispatching decoder gives identical getters; CBOR->claims->JSON->claims->CBOR reproduces the bytes; the emitted document parsed generically equals the model's expected object (documented names, std base64, absent optionals omitted); Evidence.MarshalJSON agrees. Non-trivial = special text, or P1 without explicit profile, or no-measurements, or >=2 components; distinct = class vector + text hash")
+	st := NewStats("C12", "TestC12_JSON", "rapid: valid claims-sets of both profiles (setters / literals / decoded from CBOR; P1 with and without explicit profile; non-ASCII, control, quote, <>& text; negative client ids): JSON round trip through the dispatching decoder gives identical getters; CBOR->claims->JSON->claims->CBOR reproduces the bytes; the emitted document parsed generically equals the model's expected object (documented names, std base64, absent optionals omitted); Evidence.MarshalJSON agrees. Seven extension styles and seven profiles whose names are prefixes / extensions of the built-in names are registered throughout. Non-trivial = special text, or P1 without explicit profile, or no-measurements, or >=2 components; distinct = class vector + text hash")
 	st.Require = []string{"P1", "P2", "p1-implicit-profile", "special-text", "nomeas", "neg-clientid"}
 	defer st.Flush(t)
+	// the register also holds other profiles, among them ones whose NAMES
+	// extend (or are extended by) the built-in names and that use the same
+	// profile member: the built-in profiles' own JSON still comes back
+	registerMu.Lock()
+	defer registerMu.Unlock()
+	restore := psatoken.VerifCheckpointProfiles()
+	defer restore()
+	registerExtStyles()
+	for _, pr := range []psatoken.IProfile{
+		dynProfile{P2Name + "/vendor-x", "ext-p2"}, dynProfile{P2Name + "0", "ext-p2"}, dynProfile{"http://arm.com/psa/2.0", "ext-p2"}, dynProfile{"http://arm.com/psa", "own-tag"},
+		dynProfile{P1Name + "_X", "ext-p1"}, dynProfile{"PSA_IOT_PROFILE_", "ext-p1"}, dynProfile{"PSA", "ext-p1"},
+	} {
+		if err := psatoken.RegisterProfile(pr); err != nil {
+			t.Fatalf("VERIF-INFRA: %v", err)
+		}
+	}
 	rapid.Check(t, func(t *rapid.T) {
 		p := drawProf(t)
 		route := rapid.SampledFrom([]string{"setters", "literal", "decoded"}).Draw(t, "route")
